@@ -17,6 +17,7 @@ once drops each of them exactly once.  A step time-out that abandons a handler i
 -/
 import NexoVerif.Lemmas.DropOther
 import NexoVerif.Lemmas.TaskThm
+import NexoVerif.Lemmas.AbortThm
 import NexoVerif.Extracted
 
 namespace NexoVerif.DropM
@@ -153,3 +154,78 @@ theorem a_task_without_handles_is_gone {s : S} (h : Reach s)
     s.live = false ∧ s.frees = 1 ∧ s.futDrops = 1 ∧ s.outDrops = s.outMade := released_once h hn
 
 end NexoVerif.TaskM
+
+/-! ## the abort reaches every worker (M-ABORT)
+
+M-DROP starts where the worker threads have been joined.  That the joins return — on `Executor::drop`, after a time-out
+and after a model panic — is the subject of M-ABORT: `abort_signal.set()` followed by `activate_all_workers()` against the
+loop of `run_local_worker`, any number of workers, every interleaving, with anybody unparking anybody at any moment. -/
+
+namespace NexoVerif.Abort
+
+/-- read from `mt_executor.rs`: the signal is set before the workers are unparked, at all three sites -/
+def abortFirstSrc : Bool :=
+  Extracted.abortSetBeforeUnparkOnDrop && Extracted.abortSetBeforeUnparkOnTimeout && Extracted.abortSetBeforeUnparkOnPanic
+
+/-- read from `pool_manager.rs`: `activate_all_workers` unparks every worker -/
+def unparkAllSrc : Bool := Extracted.activateAllUnparksEveryWorker
+
+/-- **abort_protocol_shape** — what M-ABORT takes from the source, read on every run: the order "signal, then unparks"
+in `Executor::drop`, on a time-out and after a caught panic; the unconditional unpark of every worker; the two places
+where a worker looks at the signal (after the parking block of every turn, before every task). -/
+theorem abort_protocol_shape :
+    Extracted.abortSetBeforeUnparkOnDrop = true ∧ Extracted.abortSetBeforeUnparkOnTimeout = true ∧
+    Extracted.abortSetBeforeUnparkOnPanic = true ∧ Extracted.activateAllUnparksEveryWorker = true ∧
+    Extracted.workerTestsAbortAfterParking = true ∧ Extracted.workerTestsAbortBeforeEachTask = true := by decide
+
+/-- **abort_reaches_every_worker** — for any number of workers, wherever each of them is in its loop (parked, about to
+park, running tasks, at the top of the loop) and whatever tokens their parkers hold when the abort is raised, and for every
+interleaving afterwards: once the signal is set and the last worker has been unparked, (1) every worker that has not left
+has a step it can take — none is blocked in `park()` without a token —, (2) every step a worker takes brings it strictly
+closer to leaving (at most 4 steps each), and nothing else that can happen moves a worker back, (3) when that distance is
+zero every worker has left, so every `join()` returns. -/
+theorem abort_reaches_every_worker {n : Nat} {s : St} (r : Reach n abortFirstSrc unparkAllSrc s) (hd : s.agent = .done) :
+    s.abort = true ∧
+    (∀ j, j < s.n → s.pc j ≠ .exited → ∃ l, isWorkerStep l j ∧ (step l s).isSome = true) ∧
+    (∀ l s', step l s = some s' →
+      (∃ j, isWorkerStep l j ∧ dist s' < dist s ∧ s'.agent = .done) ∨ (s'.pc = s.pc ∧ s'.n = s.n ∧ s'.agent = .done)) ∧
+    (dist s = 0 → ∀ j, j < s.n → s.pc j = .exited) := by
+  have e1 : abortFirstSrc = true := by decide
+  have e2 : unparkAllSrc = true := by decide
+  rw [e1, e2] at r
+  have i := inv_reach r
+  exact ⟨i.set (by simp [hd]), fun j hj hne => worker_can_move i hd j hj hne,
+    fun l s' h => step_after_done i hd l h, dist_zero⟩
+
+/-- **a_worker_that_is_not_unparked_never_leaves** — the two ways to get it wrong, each with a run that ends with the
+abort raised, the unparks done and a worker blocked in `park()` for good: unparking only the workers that are parked
+(a worker that was running a task parks later and is never woken), and setting the signal after the unparks (a woken
+worker sees no signal, goes on and parks again). -/
+theorem a_worker_that_is_not_unparked_never_leaves :
+    (runLabels [.aStart, .aUnpark, .aUnpark, .wRunDone 0, .wDecidePark 0, .wPark 0]
+      (St.init 1 (fun _ => .run) (fun _ => false) true false)).map
+      (fun s => (s.agent == .done, s.abort, s.pc 0 == .parked, s.tok 0, stuckB s 0)) = some (true, true, true, false, true) ∧
+    (runLabels [.aStart, .aUnpark, .wWake 0, .wCheck 0, .aUnpark, .aSetLate, .wRunDone 0, .wDecidePark 0, .wPark 0]
+      (St.init 1 (fun _ => .parked) (fun _ => false) false true)).map
+      (fun s => (s.agent == .done, s.abort, s.pc 0 == .parked, s.tok 0, stuckB s 0)) = some (true, true, true, false, true) :=
+  ⟨unparking_only_parked_workers_strands_one, unparking_before_the_signal_strands_one⟩
+
+-- non-vacuity of `abort_reaches_every_worker`: a reachable state with the unparks done and workers still on their way
+example : ∃ s, Reach 2 abortFirstSrc unparkAllSrc s ∧ s.agent = .done ∧ s.pc 0 = .parked ∧ s.pc 1 = .run := by
+  have e1 : abortFirstSrc = true := by decide
+  have e2 : unparkAllSrc = true := by decide
+  rw [e1, e2]
+  have r0 : Reach 2 true true (St.init 2 (fun j => if j = 0 then WPc.parked else WPc.run) (fun _ => false) true true) :=
+    Reach.init _ _ (by intro i; by_cases h : i = 0 <;> simp [h])
+  have h : (runLabels [.aStart, .aUnpark, .aUnpark, .aUnpark]
+      (St.init 2 (fun j => if j = 0 then WPc.parked else WPc.run) (fun _ => false) true true)).isSome = true := by decide
+  obtain ⟨s, hs⟩ := Option.isSome_iff_exists.mp h
+  refine ⟨s, reach_runLabels _ r0 hs, ?_⟩
+  have : (runLabels [.aStart, .aUnpark, .aUnpark, .aUnpark]
+      (St.init 2 (fun j => if j = 0 then WPc.parked else WPc.run) (fun _ => false) true true)).map
+      (fun s => (s.agent == .done, s.pc 0 == .parked, s.pc 1 == .run)) = some (true, true, true) := by decide
+  rw [hs] at this
+  simp at this
+  exact this
+
+end NexoVerif.Abort
